@@ -188,6 +188,8 @@ pub enum Kind {
     CropNew,
     /// crop of a crop
     Crop2,
+    /// a *mutable* cropped view (`TypedCroppedImageMut` over a `TypedImage`) used as a SOURCE
+    CropMutAsSrc,
     /// harness container (user implementation of the public trait), inherits default splits
     Sim,
     /// harness container that declines every split request
@@ -211,11 +213,13 @@ pub enum Kind {
     DynCrop,
     /// `CroppedImage(Mut)` of `CroppedImage(Mut)`
     DynCrop2,
+    /// `CroppedImageMut` over an `Image` used as a SOURCE (its immutable view)
+    DynCropMutAsSrc,
 }
 
 impl Kind {
     pub fn is_dyn(self) -> bool {
-        matches!(self, Kind::DynSlice | Kind::DynImgAsSrc | Kind::DynOwned | Kind::DynCrop | Kind::DynCrop2)
+        matches!(self, Kind::DynSlice | Kind::DynImgAsSrc | Kind::DynOwned | Kind::DynCrop | Kind::DynCrop2 | Kind::DynCropMutAsSrc)
     }
     pub fn is_sim(self) -> bool {
         matches!(self, Kind::Sim | Kind::SimNoSplit | Kind::CropSim)
@@ -225,7 +229,7 @@ impl Kind {
         self.is_sim() || matches!(self, Kind::YSlice | Kind::YCrop)
     }
     pub fn is_cropped(self) -> bool {
-        matches!(self, Kind::CropRef | Kind::CropNew | Kind::Crop2 | Kind::CropSim | Kind::DynCrop | Kind::DynCrop2 | Kind::YCrop)
+        matches!(self, Kind::CropRef | Kind::CropNew | Kind::Crop2 | Kind::CropSim | Kind::DynCrop | Kind::DynCrop2 | Kind::YCrop | Kind::CropMutAsSrc | Kind::DynCropMutAsSrc)
     }
     pub fn allows_tail(self) -> bool {
         !matches!(self, Kind::Owned | Kind::DynOwned | Kind::Sim | Kind::SimNoSplit | Kind::CropSim)
